@@ -55,6 +55,7 @@ def parseKind (ws : List String) : Option Kind :=
   | ["dialTCP", f] => some (.dialTCP (num f))
   | ["dialUnix", f] => some (.dialUnix (num f))
   | ["accepted", f] => some (.accepted (num f))
+  | ["acceptConn", f] => some (.acceptConn (num f))
   | ["fdConn", fd, f] => some (.fdConn (num fd) (num f))
   | ["createListener", f] => some (.createListener (num f))
   | ["convertListener", fd, f] => some (.convertListener (num fd) (num f))
@@ -73,7 +74,7 @@ def Scenario.assume (s : Scenario) (withSoft : Bool) : Br → Option Bool := fun
   ((s.fixed ++ (if withSoft then s.soft else [])).find? (·.1 == l)).map (·.2)
 
 def kindName : Kind → String
-  | .dialTCP _ => "dialTCP" | .dialUnix _ => "dialUnix" | .accepted _ => "accepted" | .fdConn _ _ => "fdConn"
+  | .dialTCP _ => "dialTCP" | .dialUnix _ => "dialUnix" | .accepted _ => "accepted" | .acceptConn _ => "acceptConn" | .fdConn _ _ => "fdConn"
   | .createListener _ => "createListener" | .convertListener _ _ => "convertListener" | .poller _ => "poller"
 
 /-- the observable events for the monitors (`n a` counts as netpoll being given the number) -/
@@ -126,24 +127,35 @@ structure Search where
   budget : Nat
   deepest : Nat      -- index of the furthest event matched (for the failure report)
 
-def started (g : G) (i : Nat) : Bool :=
-  g.trace.any fun e => match e with
-    | .npOpen _ j _ | .npAdopt _ j _ | .npClose _ j _ _ _ | .npAt j _ | .npChoice j _ _ | .npRel _ j _ _ => j == i
-    | _ => false
+/-- which instances have performed at least one step (one pass over the trace) -/
+def startedSet (g : G) (n : Nat) : Array Bool :=
+  g.trace.foldl (fun a e =>
+    let mark (j : Nat) : Array Bool := if h : j < a.size then a.set j true else a
+    match e with
+    | .npOpen _ j _ | .npAdopt _ j _ | .npClose _ j _ _ _ | .npAt j _ | .npChoice j _ _ | .npRel _ j _ _ => mark j
+    | _ => a) (Array.replicate n false)
 
-/-- instances worth trying for an event: all started ones, and of the not yet started ones only the first of
-each kind (they are interchangeable) -/
-def candidates (g : G) (kinds : List Kind) : List Nat := Id.run do
-  let mut out : List Nat := []
+def finished (g : G) (i : Nat) : Bool :=
+  match g.insts[i]? with
+  | some m => isDone m
+  | none => true
+
+/-- instances worth trying for an event: the started ones that have not finished (a finished lifecycle performs no
+further event), and of the not yet started ones only the first of each kind (they are interchangeable; `keys` = the
+printed kinds, computed once per scenario) -/
+def candidates (g : G) (keys : Array String) : List Nat := Id.run do
+  let st := startedSet g keys.size
+  let mut out : Array Nat := #[]
   let mut seenFresh : List String := []
-  for i in List.range kinds.length do
-    if started g i then out := out ++ [i]
+  for i in List.range keys.size do
+    if st.getD i false then
+      if !finished g i then out := out.push i
     else
-      let k := reprStr (kinds[i]!)
+      let k := keys.getD i ""
       if !seenFresh.contains k then
         seenFresh := k :: seenFresh
-        out := out ++ [i]
-  return out
+        out := out.push i
+  return out.toList
 
 partial def finishAll (A : Br → Option Bool) (forbid : List (Nat × Site)) (g : G) (i n : Nat) : Option G :=
   if i ≥ n then some g
@@ -151,12 +163,12 @@ partial def finishAll (A : Br → Option Bool) (forbid : List (Nat × Site)) (g 
     let alts := (silentClosure A forbid g i 40).filter fun g' => match g'.insts[i]? with | some m => isDone m | none => false
     alts.findSome? fun g' => finishAll A forbid g' (i+1) n
 
-partial def search (A : Br → Option Bool) (forbid : List (Nat × Site)) (kinds : List Kind) (complete : Bool) (g : G) (idx : Nat) (ls : List Line) : StateM Search (Option G) := do
+partial def search (A : Br → Option Bool) (forbid : List (Nat × Site)) (kinds : Array String) (complete : Bool) (g : G) (idx : Nat) (ls : List Line) : StateM Search (Option G) := do
   let st ← get
   if st.budget = 0 then return none
   set { st with budget := st.budget - 1, deepest := max st.deepest idx }
   match ls with
-  | [] => return (if complete then finishAll A forbid g 0 kinds.length else some g)
+  | [] => return (if complete then finishAll A forbid g 0 kinds.size else some g)
   | .adopt n :: rest =>
     for i in candidates g kinds do
       for g1 in silentClosure A forbid g i 40 do
@@ -244,15 +256,19 @@ def judge (s : Scenario) : String :=
   let left := leftOpen envOpen obs
   let leftS := if left.isEmpty then "-" else ",".intercalate (left.map toString)
   let g0 : G := { (G.init envOpen) with insts := s.kinds.map Kind.prog }
+  let keys : Array String := (s.kinds.map fun k => reprStr k).toArray
   -- a sequence the specification rejects needs no explanation by the model (and the search for one is the expensive case)
   if owned != "ok" || once != "ok" then
     s!"R {s.name} owned={owned} once={once} left={leftS} conform=skipped sites=- paths=-"
   else
-  let (r1, st1) := (search (s.assume true) s.forbid s.kinds s.complete g0 0 s.lines).run { budget := 200000, deepest := 0 }
+  -- descriptors left at the end of a complete scenario: the specification has already rejected the run; a model run
+  -- could explain it only through the branches assumed away for `C15_none_left`, so the search is kept short
+  let budget := if left.isEmpty || !s.complete then 200000 else 20000
+  let (r1, st1) := (search (s.assume true) s.forbid keys s.complete g0 0 s.lines).run { budget := budget, deepest := 0 }
   let (r, st) := match r1 with
     | some _ => (r1, st1)
     | none => if s.soft.isEmpty then (r1, st1) else
-        (search (s.assume false) s.forbid s.kinds s.complete g0 0 s.lines).run { budget := 200000, deepest := 0 }
+        (search (s.assume false) s.forbid keys s.complete g0 0 s.lines).run { budget := budget, deepest := 0 }
   let (conf, sites, paths) := match r with
     | some g => let d := describeRun s.kinds g; ("ok", d.1, d.2)
     | none => (if st.budget = 0 then "BUDGET" else s!"FAIL@{st.deepest}", "-", "-")
